@@ -1,7 +1,7 @@
 """C08 - query strings parse to one well-defined mapping; typed getters never misreport."""
 PROP = 'C08'
-LEAN_MODULES = ['FalconModel.QueryProofs', 'FalconModel.QueryRef', 'FalconModel.UriEncodeProofs', 'FalconModel.GettersProofs', 'FalconModel.ToQueryStrProofs']
-DRIVERS = ['qsdriver']
+LEAN_MODULES = ['FalconModel.QueryProofs', 'FalconModel.QueryRef', 'FalconModel.UriEncodeProofs', 'FalconModel.GettersProofs', 'FalconModel.ToQueryStrProofs', 'FalconModel.TypedQuery', 'FalconModel.TypedQueryProofs']
+DRIVERS = ['qsdriver', 'tqdriver']
 THEOREMS = [
     # the parser model equals the reference reading for EVERY query string and option setting (FalconModel/QueryRef.lean)
     'Qs.parseQS_eq_ref', 'Qs.parseQS_keys_nodup', 'Qs.csv_off_never_splits', 'Qs.addField_true_eq', 'Qs.addEntry_refOf',
@@ -26,6 +26,9 @@ THEOREMS = [
     'Gt.toQueryStr_eq', 'Gt.toQueryStr_prefix', 'Gt.splitOn_joinAmp', 'Gt.splitOn_joinComma', 'Gt.fieldEntry_pair', 'Gt.fieldEntry_csv', 'Gt.refOf_entries',
     'Gt.parse_toQueryStr',
     'Gt.wf_witness_both_empty', 'Gt.wf_witness_blank_dropped', 'Gt.wf_witness_short_list', 'Gt.wf_witness_empty_list', 'Gt.wf_witness_cdl_without_csv', 'Gt.wf_witness_same_name',
+    # to_query_str on TYPED values (FalconModel/TypedQuery.lean: the conversion True/False -> true/false, str(int), lists by style) and the typed round trip (TypedQueryProofs.lean)
+    'Tq.ofDigits_decDigits', 'Tq.pyInt_strInt', 'Tq.strInt_isSome', 'Tq.encodeValue_literals', 'Tq.toQueryStr_normMap', 'Tq.parse_typed', 'Tq.lookup_typed',
+    'Tq.typed_round_trip', 'Tq.typed_round_trip_list', 'Tq.typed_round_trip_int_list', 'Tq.twf_witness_empty_list',
 ]
 STATEMENTS = {
     'Qs.parseQS_eq_ref': 'for every byte string and both option flags the parser model (whole-string is_encoded flag, accumulate-by-lookup loop) equals parseRef: fields split on "&", each split at the first "=", blank rule, names/values decoded, CSV split on literal commas only when enabled, names in order of first occurrence, a name is scalar iff it occurs once and not as a CSV list, otherwise all its values in order',
@@ -57,6 +60,13 @@ STATEMENTS = {
     'Gt.getListT_of_query': 'end to end: get_param_as_list on parse_query_string(qs): if some field carries the name, ALL its values in query-string order, transformed element-wise (one ValueError rejects the parameter)',
     'Gt.parse_toQueryStr': 'for every mapping m of names to strings / lists of strings with WFmap (names distinct; no pair with name and value both empty and no empty value when blanks are dropped; lists have >= 2 elements; comma_delimited_lists only with auto_parse_qs_csv): parse_query_string(to_query_str(m, cdl, prefix=False), kb, csv) = m, same order, scalars as scalars, lists as lists',
     'Gt.toQueryStr_prefix': 'prefix=True only puts "?" in front',
+    'Tq.pyInt_strInt': 'int(str(n)) == n for every int n whose str() does not raise (at most 4300 digits): the int() model reads the decimal numeral of the conversion model (minus sign, zero, big numbers) back as n',
+    'Tq.strInt_isSome': 'str(n) raises ValueError exactly when n has more than 4300 decimal digits',
+    'Tq.toQueryStr_normMap': 'to_query_str renders a list of one item exactly like the item, for both list styles and prefixes',
+    'Tq.typed_round_trip': 'for every mapping of names to str / int / True / False / None / lists of those with TWF (no str() raises; on the converted texts: names distinct, no empty text beside an empty name and none when blanks are dropped, no empty list, comma_delimited_lists only with auto_parse_qs_csv): to_query_str(m, cdl, prefix=False) returns qs and on parse_query_string(qs, kb, csv) every int n comes back from get_param_as_int as n (stored; 400 iff outside min/max), True/False from get_param_as_bool as that boolean for either blank_as_true, a str from get_param as itself, None as "None"',
+    'Tq.typed_round_trip_list': 'same hypotheses: every list of the mapping - one-item lists included - comes back from get_param_as_list as the texts of its items in order, the text being str(x) under comma_delimited_lists (True -> "True") and true/false/str(x) under repetition',
+    'Tq.typed_round_trip_int_list': 'same hypotheses: a list of ints comes back from get_param_as_list(name, transform=int) as those ints, for both list styles',
+    'Tq.twf_witness_empty_list': 'the empty list is rightly excluded: {"a": []} renders to "" (repetition) or "a=" (comma-delimited), so get_param_as_list cannot return []',
     'Gt.wf_witness_both_empty': 'each side condition of the round trip is needed: six concrete mappings violating exactly one of them do not come back (wf_witness_*)',
 }
 TRUSTED = [
@@ -91,10 +101,10 @@ RULE = ('ALL strings of length <= 4 (quick) / <= 5 (thorough) over {& = , + % 4 
         'int() is compared with Gt.pyInt on every code point alone and next to digits/signs (quick: all below U+3100, around every digit block, a sample of the rest) and on ALL strings of length <= 4/5 over {0 7 _ + - space \\x1c NBSP Arabic-3 x EM-SPACE}. '
         'non-trivial = the reference mapping is non-empty; distinct = distinct (query string, options, interface)')
 PARTIAL = ('Proved for all inputs: parser model = reference reading (parseQS_eq_ref), decode = reference (all code paths), decode(encode_value) = id; the getters get_param / _as_int / _as_bool / _as_list '
-           '(last occurrence, exact bounds, required/default/store, only documented outcomes, boolean table) for all mappings and end to end from the raw query string; the general to_query_str round trip. '
+           '(last occurrence, exact bounds, required/default/store, only documented outcomes, boolean table) for all mappings and end to end from the raw query string; the general to_query_str round trip, and the typed one (int / bool / str / None / lists: int(str(n)) = n, conversion order, one-item lists). '
            'NOT proved (tied by the correspondence / judged by the oracle only): the bytes->str step (UTF-8 with replacement, Utf8 model) has no independent specification; '
            'get_param_as_float (float() needs correctly rounded decimal->binary64, not modelled), _as_uuid, _as_datetime, _as_date, _as_json (library parsers); '
-           'to_query_str for non-string values: the conversion str(v) / true / false in front of the modelled byte-level rendering is not modelled (the Lean toQueryStr gets the converted texts; the oracle judges the typed round trip); '
+           'to_query_str for values other than str / int / bool / None and lists of them (float, Decimal, date, uuid, objects with __str__: their str() is not modelled; the oracle judges that typed round trip); for the modelled types the conversion, the rendering and the typed round trip through get_param_as_int / _as_bool / get_param / _as_list are proved (Tq.typed_round_trip*), the side conditions being stated on the converted texts; '
            'the str -> UTF-8 encoding step (the round trip is stated on UTF-8 bytes, names distinct after decoding).')
 JOBS = {'quick': 4, 'thorough': 16}
 
@@ -862,6 +872,133 @@ def run(ctx):
             sessg.case({'kind': 'to_query_str typed', 'mapping': repr(m)[:500], 'comma_delimited_lists': cdl})
             sessg.op(f'toqs {1 if cdl else 0} 0 {show_mapping(ms)}', hx(qs.encode('utf-8')))
             sessg.op(f'{1 if keep_blank else 0} {1 if csv else 0} {hx(qs.encode("utf-8"))}', render(back))
+
+    # ------------------------------------------------------------- to_query_str with TYPED values = Tq model (TypedQuery.lean): conversion + rendering + typed getters
+    sesst = ctx.session('to_query_str on typed mappings (str / int / True / False / None / lists of them: the conversion in front of the rendering) and the typed getter of each value on its parse (WSGI, ASGI) = Tq model', 'tqdriver')
+    TQ_ORACLE = ('to_query_str(mapping of str / int / bool / None / non-empty lists of them) parsed back: get_param_as_int returns the int, get_param_as_bool the bool, get_param the str (None: "None"), '
+                 'get_param_as_list the texts of the items in order (a boolean item: a text of the documented table that reads as it)')
+    TQ_INTS = [0, 1, -1, 9, 10, -10, 99, 100, 255, -256, 2 ** 31, -2 ** 63, 10 ** 18, -(10 ** 30) + 1, 10 ** 100, 10 ** 4299, -(10 ** 4300) + 1]
+
+    def tq_scalar():
+        r = rnd.random()
+        if r < 0.35:
+            q = rnd.random()
+            if q < 0.4: return rnd.choice(TQ_INTS)
+            if q < 0.75: return rnd.randint(-1100, 1100)
+            if q < 0.97: return rnd.choice([1, -1]) * rnd.getrandbits(rnd.choice([8, 33, 64, 130, 900]))
+            return rnd.choice([1, -1]) * 10 ** rnd.choice([4300, 4301, 5000])          # str() raises ValueError
+        if r < 0.6: return rnd.random() < 0.5
+        if r < 0.9: return rstr(0 if rnd.random() < 0.2 else 1)
+        return None
+
+    def show_scalar(x):
+        if x is True: return 'bT'
+        if x is False: return 'bF'
+        if x is None: return 'n'
+        if isinstance(x, int): return 'i' + int_text(x)
+        return 's' + hx(x.encode('utf-8'))
+
+    def int_text(n):
+        # decimal numeral without str(): beyond sys.int_max_str_digits as well
+        if n == 0: return '0'
+        sign, n, out = ('-' if n < 0 else ''), abs(n), []
+        while n:
+            n, d = divmod(n, 10 ** 18)
+            out.append(d)
+        return sign + str(out[-1]) + ''.join('%018d' % d for d in reversed(out[:-1]))
+
+    def trepr(m):
+        one = lambda x: int_text(x) if isinstance(x, int) and not isinstance(x, bool) else repr(x)
+        return '{' + ', '.join(repr(k_) + ': ' + ('[' + ', '.join(one(x) for x in v) + ']' if isinstance(v, list) else one(v)) for k_, v in m.items()) + '}'
+
+    def show_typed(m):
+        if not m: return '-'
+        return ';'.join(hx(k_.encode('utf-8')) + '=' + ('[' + ','.join(show_scalar(x) for x in v) + ']' if isinstance(v, list) else show_scalar(v)) for k_, v in m.items())
+
+    def outcome(f, shown):
+        try:
+            r = f()
+        except falcon.HTTPInvalidParam:
+            return 'invalid400', None
+        except falcon.HTTPMissingParam:
+            return 'missing400', None
+        if r is None:
+            return 'default', None
+        return 'value:' + shown(r), r
+
+    def typed_get(req, key, v):
+        if isinstance(v, list):
+            return outcome(lambda: req.get_param_as_list(key), lambda r: '[' + ','.join(ss(x) for x in r) + ']')
+        if v is True or v is False:
+            return outcome(lambda: req.get_param_as_bool(key, blank_as_true=False), lambda r: 'True' if r else 'False')
+        if isinstance(v, int):
+            return outcome(lambda: req.get_param_as_int(key), str)
+        return outcome(lambda: req.get_param(key), ss)
+
+    for _ in range(ctx.n(3000, 40000)):
+        m = {}
+        for _ in range(rnd.choice([0, 1, 1, 2, 3, 4])):
+            key = rstr(0 if rnd.random() < 0.1 else 1)
+            if rnd.random() < 0.4:
+                v = [tq_scalar() for _ in range(rnd.choice([0, 1, 1, 2, 3, 4]))]
+            else:
+                v = tq_scalar()
+            m[key] = v
+            ctx.count('tq_value_' + ('list%d' % min(len(v), 2) if isinstance(v, list) else 'none' if v is None else type(v).__name__))
+        cdl, pfx = rnd.random() < 0.5, rnd.random() < 0.5
+        keep_blank = rnd.random() < 0.7
+        csv = cdl or rnd.random() < 0.5
+        entry = rnd.choice(['wsgi', 'asgi'])
+        sesst.case({'kind': 'typed to_query_str', 'mapping': trepr(m)[:600], 'comma_delimited_lists': cdl, 'prefix': pfx, 'keep_blank_qs_values': keep_blank, 'auto_parse_qs_csv': csv, 'entry': entry})
+        raised = None
+        try:
+            qs = to_query_str(m, comma_delimited_lists=cdl, prefix=pfx)
+            qs0 = to_query_str(m, comma_delimited_lists=cdl, prefix=False)
+        except ValueError:
+            raised = 'VE'
+        except Exception as e:  # noqa
+            raised = 'EXC:' + type(e).__name__
+        flat = [x for v in m.values() for x in (v if isinstance(v, list) else [v])]
+        too_big = any(isinstance(x, int) and not isinstance(x, bool) and abs(x) >= 10 ** 4300 for x in flat)
+        if raised is not None:
+            sesst.op(f'tq {1 if cdl else 0} {1 if pfx else 0} {show_typed(m)}', raised)
+            # str(int) is documented to raise ValueError beyond sys.int_max_str_digits: nothing else may
+            ctx.oracle(TQ_ORACLE, raised == 'VE' and too_big, None if raised == 'VE' and too_big else f'to_query_str raised {raised}', {'mapping': trepr(m)[:2000], 'comma_delimited_lists': cdl})
+            ctx.seen(('tq', trepr(m)[:300], cdl, pfx), True)
+            ctx.count('tq_str_int_raises')
+            continue
+        sesst.op(f'tq {1 if cdl else 0} {1 if pfx else 0} {show_typed(m)}', hx(qs.encode('utf-8')))
+        bad = None
+        shown = []
+        # the oracle's side conditions, on the values themselves
+        def text_ok(key, x):
+            return x is None or x is True or x is False or isinstance(x, int) or x != '' or (keep_blank and key != '')
+        judged = all((len(v) > 0 and all(text_ok(key, x) for x in v)) if isinstance(v, list) else text_ok(key, v) for key, v in m.items())
+        try:
+            req = make_req(entry, qs0, keep_blank, csv)
+            for key, v in m.items():
+                line, got = typed_get(req, key, v)
+                shown.append(line)
+                if not judged or bad is not None:
+                    continue
+                if isinstance(v, list):
+                    okv = isinstance(got, list) and len(got) == len(v) and all(isinstance(g, str) and g in texts_for(x) for g, x in zip(got, v))
+                elif v is None:
+                    okv = got == 'None'
+                else:
+                    okv = type(got) is type(v) and got == v
+                if not okv:
+                    bad = f'{key!r}: {trepr({key: v})} rendered in {qs0[:200]!r} ({entry}); the typed getter answered {line[:200]}'
+        except Exception as e:  # noqa
+            bad = f'raised {type(e).__name__}: {str(e)[:200]}'
+            shown = None
+        if judged:
+            ctx.oracle(TQ_ORACLE, bad is None, bad, {'mapping': trepr(m)[:2000], 'comma_delimited_lists': cdl, 'keep_blank_qs_values': keep_blank, 'auto_parse_qs_csv': csv, 'entry': entry})
+        ctx.seen(('tq', trepr(m)[:300], cdl, pfx, keep_blank, csv, entry), bool(m))
+        ctx.count('tq_typed_' + entry + ('_judged' if judged else '_unjudged'))
+        if shown is not None:
+            sesst.op(f'rt {1 if cdl else 0} {1 if keep_blank else 0} {1 if csv else 0} {show_typed(m)}', ' '.join(shown) if shown else '-')
+    sesst.finish()
 
     # ------------------------------------------------------------- the constants and int() of the getter model
     import unicodedata
